@@ -35,6 +35,16 @@ func c18(args []string) {
 		}
 	}
 	r := newRng(c.seed)
+	// the hash.Hash16 contract around the checksum: 2-byte sum, block size 1, Sum appends big-endian to what it is given
+	{
+		h := crc16.New()
+		h.Write([]byte("123456789"))
+		sum := h.Sum([]byte{0xAA})
+		stat("hash_interface_checks", 1)
+		if h.Size() != 2 || h.BlockSize() != 1 || len(sum) != 3 || sum[0] != 0xAA || uint16(sum[1])<<8|uint16(sum[2]) != h.Sum16() || h.Sum16() != 0xBB3D {
+			emitJSON("FAIL", "", map[string]any{"kind": "hash-interface", "size": h.Size(), "block_size": h.BlockSize(), "sum": fmt.Sprintf("%x", sum), "sum16": h.Sum16()})
+		}
+	}
 	for i := 0; i < n; i++ {
 		h := crc16.New()
 		var ops, outs []string
